@@ -55,7 +55,16 @@ pub fn decoded_in_case() -> u64 { decoded_now().saturating_sub(CASE_DECODED_STAR
 /// allowance for a case: 64 MiB + 64 x (input + bytes produced by stream filters so far)
 pub fn alloc_allowance(input: u64, decoded: u64) -> u64 { (64u64 << 20) + 64 * (input + decoded) }
 /// CPU allowance in ns: 5 s + 20 µs per (input + decoded) byte
-pub fn cpu_allowance_ns(input: u64, decoded: u64) -> i64 { 5_000_000_000 + 20_000 * (input + decoded) as i64 }
+pub fn cpu_allowance_ns(input: u64, decoded: u64) -> i64 { (5_000_000_000 + 20_000 * (input + decoded) as i64).saturating_mul(cpu_factor()) }
+/// 1 in native runs; the sanitizer lanes set VERIF_CPU_FACTOR for their (several times slower) worker binaries
+fn cpu_factor() -> i64 {
+    static F: AtomicI64 = AtomicI64::new(0);
+    let f = F.load(Ordering::Relaxed);
+    if f > 0 { return f; }
+    let f = std::env::var("VERIF_CPU_FACTOR").ok().and_then(|s| s.parse::<i64>().ok()).filter(|f| *f >= 1).unwrap_or(1);
+    F.store(f, Ordering::Relaxed);
+    f
+}
 
 /// a bare protocol line written straight to the descriptor (no allocation, no lock)
 fn raw_line_plain(kind: &str) {
